@@ -36,6 +36,7 @@ COMPONENTS = {
 
 def configs(tier):
     return [{"spake": "real" if i == 0 else "stub",
+             "uplink_loss": i in (2, 5, 7),
              "max_msgs": 4 if tier == "quick" else 8} for i in range(8)]
 
 
@@ -48,7 +49,19 @@ def run_one(seed, tape, opts):
     prefix = ca.PrefixOracle(a, b)
     order = ca.EventOrderOracle([a, b], versions_first=True)
 
+    planned = None
+    if opts.get("uplink_loss"):
+        # planned compound fault: the server stops reading one client's
+        # connection at a drawn event (its own messages stay in flight while
+        # it keeps receiving the peer's), the connection dies at a later
+        # drawn event, and the lost messages must be re-submitted
+        t1 = tape.choose(200, "ul_t1")
+        planned = w.plan_uplink_loss(tape.pick((a, b), "ul_victim"), t1,
+                                     t1 + 1 + tape.choose(200, "ul_t2"))
+
     def oracle():
+        if planned is not None:
+            planned()
         prefix.step()
         order.step()
     sim.after_step = oracle
